@@ -9,6 +9,11 @@
  * Mode areas: SEVERAL memory areas; every thread starts with a duplicate of one buffer; after the threads
  * a sequential epilogue (thread 7) allocates a buffer, duplicates it, frees both, then frees whatever the
  * threads left; events Alloc(t,h,a) Refused(t) Dup(t,h,from) Free(t,h) Return(a,t) End for Areas_Trace.tla.
+ * Mode xareas: ONE area shared across TWO managers with two allocators: a picture of manager P (over its own
+ * umem manager, which only P holds) and a block of manager B built on the picture's plane
+ * (ubuf_block_mem_alloc_from_pic); thread 0 holds the picture and a handle on P, thread 1 the block and a
+ * handle on B; prog letters R (free my buffer), M (release my manager handle), U (dup my buffer).  Events as
+ * in mode areas plus AllocDead(u): the allocator u ran its destructor.
  *   mode: dfs <pb> <max_runs> | random <runs> <seed> <sw> | replay <digits>
  */
 #include <stdio.h>
@@ -26,9 +31,11 @@
 #include "upipe/ubuf.h"
 #include "upipe/ubuf_block.h"
 #include "upipe/ubuf_block_mem.h"
+#include "upipe/ubuf_pic.h"
+#include "upipe/ubuf_pic_mem.h"
 #include "vsched.h"
 
-static bool shared_mode, areas_mode;
+static bool shared_mode, areas_mode, xareas_mode;
 static int pool_depth, nprog;
 static const char *prog[VS_MAXT];
 static const char *progs_arg;
@@ -52,7 +59,7 @@ static int area_allocs, area_frees;
 static void cmem_rc_dead(struct urefcount *r) { }
 /* areas mode: identity of an area = number of the allocation that made it */
 #define MAXAREA 64
-static struct { uint8_t *p; size_t n; } area_tab[MAXAREA];
+static struct { uint8_t *p; size_t n; int u; } area_tab[MAXAREA];
 static bool refuse_next[VS_MAXT + 8];
 static int area_of_ptr(const uint8_t *p)
 {
@@ -70,6 +77,7 @@ static int area_of_ubuf(struct ubuf *b)
     ubuf_block_unmap(b, 0);
     return a;
 }
+static struct umem_mgr cmemP;
 static bool cmem_alloc(struct umem_mgr *m, struct umem *u, size_t size)
 {
     if (areas_mode && refuse_next[tid()]) {
@@ -77,7 +85,7 @@ static bool cmem_alloc(struct umem_mgr *m, struct umem *u, size_t size)
         return false;
     }
     u->buffer = malloc(size ? size : 1);
-    if (areas_mode && area_allocs < MAXAREA) { area_tab[area_allocs].p = u->buffer; area_tab[area_allocs].n = size; }
+    if (areas_mode && area_allocs < MAXAREA) { area_tab[area_allocs].p = u->buffer; area_tab[area_allocs].n = size; area_tab[area_allocs].u = m == &cmemP; }
     u->size = size;
     u->real_size = size;
     u->mgr = m;
@@ -99,6 +107,12 @@ static void cmem_free(struct umem *u)
     /* the memory is deliberately not returned to malloc: a second "free" of
      * the same area must show up in the trace, not crash the harness */
 }
+/* xareas: the picture manager's own allocator (same functions, its own refcount) */
+static struct umem_mgr cmemP;
+static struct urefcount cmemP_rc;
+static void cmemP_rc_dead(struct urefcount *r) { log_ev2('k', tid(), 0, 1); }
+static struct ubuf_mgr *pmgr;
+static struct ubuf_mgr *mgrh[VS_MAXT + 8];
 static struct ubuf_mgr *bmgr;
 static struct ubuf *bufs[VS_MAXT + 8][16];
 static int bufh[VS_MAXT + 8][16];
@@ -106,6 +120,14 @@ static int nbufs[VS_MAXT + 8];
 static int next_h;
 static void areas_op(int t, char op)
 {
+    if (op == 'M') {
+        if (mgrh[t] == NULL) return;
+        struct ubuf_mgr *m = mgrh[t];
+        mgrh[t] = NULL;
+        log_ev2('m', t, m == pmgr ? 1 : 0, 0);
+        ubuf_mgr_release(m);
+        return;
+    }
     if (op == 'A' || op == 'F') {
         if (op == 'F') refuse_next[t] = true;
         struct ubuf *b = ubuf_block_alloc(bmgr, 8);
@@ -161,6 +183,7 @@ static void teardown(void)
         ubuf_mgr_release(bmgr);
         bmgr = NULL;
     }
+    pmgr = NULL;        /* (the handles on it were released by the programs or the epilogue) */
 }
 
 static void setup(void *ctx)
@@ -181,7 +204,37 @@ static void setup(void *ctx)
         bmgr = ubuf_block_mem_mgr_alloc(pool_depth, pool_depth, &cmem, 0, 0, 0, 0);
         assert(bmgr != NULL);
         memset(nbufs, 0, sizeof(nbufs));
+        memset(mgrh, 0, sizeof(mgrh));
         next_h = 0;
+        if (xareas_mode) {
+            urefcount_init(&cmemP_rc, cmemP_rc_dead);
+            cmemP = cmem;
+            cmemP.refcount = &cmemP_rc;
+            pmgr = ubuf_pic_mem_mgr_alloc(pool_depth, pool_depth, &cmemP, 1, 0, 0, 0, 0, 0, 0);
+            assert(pmgr != NULL);
+            ubase_assert(ubuf_pic_mem_mgr_add_plane(pmgr, "y8", 1, 1, 1));
+            urefcount_release(&cmemP_rc);       /* only the picture manager holds its allocator */
+            struct ubuf *pic = ubuf_pic_alloc(pmgr, 8, 8);
+            assert(pic != NULL);
+            int hp = next_h++;
+            log_ev2('a', 7, hp, area_allocs - 1);
+            struct ubuf *blk = ubuf_block_mem_alloc_from_pic(bmgr, pic, "y8");
+            assert(blk != NULL);
+            int hb = next_h++;
+            log_ev2('d', 7, hb, hp);
+            bufs[0][0] = pic; bufh[0][0] = hp; nbufs[0] = 1; mgrh[0] = pmgr;
+            bufs[1][0] = blk; bufh[1][0] = hb; nbufs[1] = 1; mgrh[1] = ubuf_mgr_use(bmgr);
+            for (int t = 2; t < nprog; t++) {
+                struct ubuf *d = ubuf_dup(t % 2 ? blk : pic);
+                assert(d != NULL);
+                int h = next_h++;
+                log_ev2('d', 7, h, t % 2 ? hb : hp);
+                bufh[t][0] = h; bufs[t][0] = d; nbufs[t] = 1;
+            }
+            for (int t = 0; t < nprog; t++)
+                vs_spawn(thread_fn, (void *)(intptr_t)t);
+            return;
+        }
         areas_op(7, 'A');                       /* the buffer every thread gets a duplicate of */
         for (int t = 0; t < nprog; t++) {
             struct ubuf *d = ubuf_dup(bufs[7][0]);
@@ -246,8 +299,12 @@ static bool finish(void *ctx, const uint8_t *sched, int len, bool stuck)
         fin_len = len;
         /* sequential epilogue: structures recycled from the pools must behave like new ones */
         areas_op(7, 'A'); areas_op(7, 'U'); areas_op(7, 'R'); areas_op(7, 'R');
-        for (int t = 0; t < nprog; t++)
+        /* what the threads left: the block side first, then the picture side (the last holder of the area
+         * is then the picture, as in ordinary use), the manager handles after the buffers */
+        for (int t = nprog - 1; t >= 0; t--)
             while (nbufs[t] > 0) areas_op(t, 'R');
+        for (int t = nprog - 1; t >= 0; t--)
+            areas_op(t, 'M');
         teardown();             /* the manager goes with its execution: a crash in its clean-up belongs here */
         fin_sched = NULL;
     }
@@ -260,17 +317,20 @@ static bool finish(void *ctx, const uint8_t *sched, int len, bool stuck)
     seen[i] = h;
     nunique++;
     printf("{\"e\":\"Reset\",\"n\":%d,\"mode\":\"%s\",\"pool\":%d,\"id\":%ld,\"prog\":\"%s\",\"sched\":\"",
-           nprog, areas_mode ? "areas" : shared_mode ? "shared" : "rc", pool_depth, out_id++, progs_arg);
+           nprog, xareas_mode ? "xareas" : areas_mode ? "areas" : shared_mode ? "shared" : "rc", pool_depth, out_id++, progs_arg);
     for (int k = 0; k < len; k++) putchar('0' + sched[k]);
     printf("\"}\n");
     for (int k = 0; k < nev; k++) {
         struct ev *e = &evs[k];
         switch (e->e) {
-        case 'a': printf("{\"e\":\"Alloc\",\"t\":%d,\"h\":%d,\"a\":%d}\n", e->t, e->h, e->a); break;
+        case 'a': printf("{\"e\":\"Alloc\",\"t\":%d,\"h\":%d,\"a\":%d,\"u\":%d}\n", e->t, e->h, e->a,
+                         e->a >= 0 && e->a < MAXAREA ? area_tab[e->a].u : 0); break;
         case 'f': printf("{\"e\":\"Refused\",\"t\":%d}\n", e->t); break;
         case 'd': printf("{\"e\":\"Dup\",\"t\":%d,\"h\":%d,\"from\":%d}\n", e->t, e->h, e->a); break;
         case 'x': printf("{\"e\":\"Free\",\"t\":%d,\"h\":%d}\n", e->t, e->h); break;
         case 'r': printf("{\"e\":\"Return\",\"t\":%d,\"a\":%d}\n", e->t, e->a); break;
+        case 'k': printf("{\"e\":\"AllocDead\",\"t\":%d,\"u\":%d}\n", e->t, e->a); break;
+        case 'm': printf("{\"e\":\"MgrRelease\",\"t\":%d,\"m\":%d}\n", e->t, e->h); break;
         default:
             printf("{\"e\":\"%s\",\"t\":%d}\n", e->e == 'U' ? "Use" : e->e == 'R' ? "Release" : e->e == 'C' ? "Crash" : "Destroy", e->t);
         }
@@ -284,7 +344,8 @@ int main(int argc, char **argv)
 {
     if (argc < 6) { fprintf(stderr, "usage\n"); return 2; }
     shared_mode = !strcmp(argv[1], "shared");
-    areas_mode = !strcmp(argv[1], "areas");
+    xareas_mode = !strcmp(argv[1], "xareas");
+    areas_mode = !strcmp(argv[1], "areas") || xareas_mode;
     pool_depth = atoi(argv[2]);
     progs_arg = argv[3];
     char *ps = strdup(argv[3]);
